@@ -327,7 +327,7 @@ func c14run(r *ev.Run) {
 	roots := map[string]int{}
 	exprs := map[string]bool{}
 	var mu syncMutex
-	ex := &xplore.Explorer{Bounds: bound, Workers: r.Workers, Body: func(c *xplore.Ctx) {
+	ex := &xplore.Explorer{Bounds: bound, Workers: r.Workers, Deadline: deadlineFor(r.Tier), Body: func(c *xplore.Ctx) {
 		g := gram.New(c)
 		spec := gram.StatementOf(g, c.Free(2)) // SELECT and EXPLAIN SELECT forms carry every select clause
 		if g.InvalidWhy != "" || spec.Form != "SELECT" {
